@@ -112,6 +112,7 @@ type record struct {
 	Version  string     `json:"version"`
 	Origin   string     `json:"origin,omitempty"`
 	Err      string     `json:"err,omitempty"`
+	Clause   string     `json:"clause,omitempty"` // judge only this clause (used to classify a rejection)
 }
 
 // ---------------------------------------------------------------------------
@@ -611,18 +612,22 @@ func judge(ctx *core.Ctx, recs []record, clause string, parallel int) ([]int, er
 	return bad, nil
 }
 
-// failingClause finds the first clause of the property the record violates.
+// failingClause finds the first clause of the property the record violates
+// (one TLC run over copies of the record, each naming one clause).
 func failingClause(ctx *core.Ctx, rec record) (string, error) {
-	for _, cl := range clauses {
-		bad, err := core.JudgeCases(ctx, traceOpts(ctx, cl), []record{rec}, 1, 1)
-		if err != nil {
-			return "", err
-		}
-		if len(bad) > 0 {
-			return cl, nil
-		}
+	copies := make([]record, len(clauses))
+	for i, cl := range clauses {
+		copies[i] = rec
+		copies[i].Clause = cl
 	}
-	return "", core.Infra("record rejected as a whole but accepted clause by clause")
+	bad, err := core.JudgeCases(ctx, traceOpts(ctx, ""), copies, len(copies), 1)
+	if err != nil {
+		return "", err
+	}
+	if len(bad) == 0 {
+		return "", core.Infra("record rejected as a whole but accepted clause by clause")
+	}
+	return clauses[bad[0]], nil
 }
 
 func countOps(prog []op) (pages, ranges, cbs int, apis string) {
